@@ -83,12 +83,53 @@ main()
 """
 
 
+def run_potable_main(args, input_text, outname="out.tab"):
+    """potable's own main() called in this process with a patched sys.argv (argument parsing, option glue, output
+    file handling and exit status are the real ones; only the interpreter start-up is saved).
+    Returns the same dict as run_potable()."""
+    import contextlib
+    import io
+    from atsim.potentials.tools import potable as _potable
+    with tempfile.TemporaryDirectory(prefix="verif-main-", dir="/var/tmp") as d:
+        inp = os.path.join(d, "model.aspot")
+        with open(inp, "wb" if isinstance(input_text, bytes) else "w") as f:
+            f.write(input_text)
+        out = os.path.join(d, outname) if outname is not None else None
+        argv = ["potable", inp] + ([out] if out else []) + list(args)
+        old_argv, old_cwd = sys.argv, os.getcwd()
+        so, se = io.StringIO(), io.StringIO()
+        rc, exc = 0, None
+        try:
+            sys.argv = argv
+            os.chdir(d)
+            with contextlib.redirect_stdout(so), contextlib.redirect_stderr(se):
+                try:
+                    _potable.main()
+                except SystemExit as e:
+                    rc = e.code if isinstance(e.code, int) else (0 if e.code is None else 1)
+                except BaseException as e:     # what the interpreter would turn into a traceback and status 1
+                    if isinstance(e, (KeyboardInterrupt, MemoryError)) or type(e).__name__ == "CaseTimeout":
+                        raise
+                    rc, exc = 1, e
+        finally:
+            sys.argv = old_argv
+            os.chdir(old_cwd)
+        data = None
+        if out and os.path.exists(out):
+            with open(out, "rb") as f:
+                data = f.read()
+        err = se.getvalue()
+        if exc is not None:
+            err += "\n%s@%s: %s" % (type(exc).__name__, innermost_atsim_frame(exc), exc)
+        return {"rc": rc, "stdout": so.getvalue(), "stderr": err, "out": data}
+
+
 def run_potable(args, input_text, outname="out.tab", timeout=120, env_extra=None):
     """Run the real potable command line in a child process.
     Returns dict(rc, stdout, stderr, out_bytes or None)."""
     with tempfile.TemporaryDirectory(prefix="verif-cli-", dir="/var/tmp") as d:
         inp = os.path.join(d, "model.aspot")
-        with open(inp, "w") as f:
+        with open(inp, "wb" if isinstance(input_text, bytes) else "w") as f:
             f.write(input_text)
         out = os.path.join(d, outname)
         code = bootstrap.repo_python_shim() + _CLI_SHIM
